@@ -4,6 +4,7 @@ import (
 	"encoding/json"
 	"fmt"
 	"reflect"
+	"runtime"
 	"runtime/debug"
 	"strings"
 
@@ -33,42 +34,47 @@ type World struct {
 	c       *Case
 	Stats   *Stats
 	tags    []string
-	curF    string // the concrete operator of the step being executed (for the divergence label)
+	curF    string        // the concrete operator of the step being executed (for the divergence label)
 	caller  []callerSlice // int slices handed to the library by the "caller" (this harness)
-	free    bool   // free-running mode (trace recording): no model state is available
-	ncells  int    // free mode: cells allocated so far
+	free    bool          // free-running mode (trace recording): no model state is available
+	ncells  int           // free mode: cells allocated so far
 }
 
 type Stats struct {
 	Cases      int            `json:"cases"`
-	Execs      int            `json:"execs"`      // (case, dtype, palette) executions
-	Calls      int            `json:"calls"`      // library calls made
-	Compared   int            `json:"compared"`   // element/observation comparisons
-	Refused    int            `json:"refused"`    // executions ended by an accepted refusal
-	Open       int            `json:"open"`       // executions ended at an outcome the statement leaves open
-	OpenPos    int            `json:"open_pos"`   // positions not compared (open by the statement)
+	Execs      int            `json:"execs"`    // (case, dtype, palette) executions
+	Calls      int            `json:"calls"`    // library calls made
+	Compared   int            `json:"compared"` // element/observation comparisons
+	Refused    int            `json:"refused"`  // executions ended by an accepted refusal
+	Open       int            `json:"open"`     // executions ended at an outcome the statement leaves open
+	OpenPos    int            `json:"open_pos"` // positions not compared (open by the statement)
 	Diverged   int            `json:"diverged"`
 	ByOp       map[string]int `json:"by_op"`
 	RefusedOps map[string]int `json:"refused_ops"`
 	Nontrivial int            `json:"nontrivial"`
+	TagN       map[string]int `json:"tag_n"`    // executions in which the circumstance named by the tag occurred
+	TagDiv     map[string]int `json:"tag_div"`  // ... of which diverged
+	TagPass    map[string]int `json:"tag_pass"` // ... of which were compared to the end and agreed
 }
 
 func NewStats() *Stats {
-	return &Stats{ByOp: map[string]int{}, RefusedOps: map[string]int{}}
+	return &Stats{ByOp: map[string]int{}, RefusedOps: map[string]int{}, TagN: map[string]int{}, TagDiv: map[string]int{}, TagPass: map[string]int{}}
 }
 
+var churn = make([]string, 512)
+
 type execResult struct {
-	err      error
-	panicked bool
-	pval     interface{}
-	stack    string
-	ret      *tensor.Dense
-	retSet   bool
-	val      interface{}
-	hasVal   bool
-	div      *Divergence // a divergence detected inside a compound op
-	altShape bool        // the result has a shape other than the model's, but one the statement allows
-	altElems []interface{}
+	err       error
+	panicked  bool
+	pval      interface{}
+	stack     string
+	ret       *tensor.Dense
+	retSet    bool
+	val       interface{}
+	hasVal    bool
+	div       *Divergence // a divergence detected inside a compound op
+	altShape  bool        // the result has a shape other than the model's, but one the statement allows
+	altElems  []interface{}
 	mayRefuse bool // an error is an accepted refusal (element type outside the operation's domain)
 	openEnd   bool // the inputs are left open by the statement: nothing is executed or compared
 }
@@ -138,6 +144,20 @@ const (
 
 // Run replays the case; returns the first divergence (nil if none).
 func Run(c *Case, cfg Config, stats *Stats) (*Divergence, Outcome) {
+	w, d, oc := run(c, cfg, stats)
+	for _, t := range w.tags {
+		stats.TagN[t]++
+		switch oc {
+		case Diverged:
+			stats.TagDiv[t]++
+		case Passed:
+			stats.TagPass[t]++
+		}
+	}
+	return d, oc
+}
+
+func run(c *Case, cfg Config, stats *Stats) (*World, *Divergence, Outcome) {
 	w := &World{Cfg: cfg, Ev: &vals.Evaluator{D: cfg.D, Pal: cfg.Pal, Sub: cfg.Sub}, c: c, Stats: stats,
 		altFull: map[int][]int{}, altDrop: map[int][]int{}}
 	w.Ev.CellDT = w.cellDT
@@ -154,7 +174,7 @@ func Run(c *Case, cfg Config, stats *Stats) (*Divergence, Outcome) {
 				}
 				if !et.Represents(v) {
 					stats.Open++
-					return nil, OpenEnd
+					return w, nil, OpenEnd
 				}
 			}
 		}
@@ -174,28 +194,28 @@ func Run(c *Case, cfg Config, stats *Stats) (*Divergence, Outcome) {
 		stats.ByOp[st.Op.K]++
 		if r.openEnd {
 			stats.Open++
-			return nil, OpenEnd
+			return w, nil, OpenEnd
 		}
 		if r.div != nil {
 			r.div.Step = i
 			r.div.Op = st.Op.K
 			stats.Diverged++
-			return r.div, Diverged
+			return w, r.div, Diverged
 		}
 		if r.altShape && st.Res.St == "ok" {
 			// compare the elements of the alternative-shaped result by row-major sequence, then stop
 			// (only when this is the last step: the final heap is the heap right after this step)
 			if d := w.compareAlt(i, st, r); last && d != nil {
 				stats.Diverged++
-				return d, Diverged
+				return w, d, Diverged
 			}
 			stats.Open++
-			return nil, OpenEnd
+			return w, nil, OpenEnd
 		}
 		if r.panicked {
 			if st.Res.St == "free" {
 				stats.Open++
-				return nil, OpenEnd
+				return w, nil, OpenEnd
 			}
 			stats.Diverged++
 			lines := strings.Split(r.stack, "\n")
@@ -206,16 +226,16 @@ func Run(c *Case, cfg Config, stats *Stats) (*Divergence, Outcome) {
 					break
 				}
 			}
-			return w.div(i, "panic", fmt.Sprintf("%v at %s", r.pval, where)), Diverged
+			return w, w.div(i, "panic", fmt.Sprintf("%v at %s", r.pval, where)), Diverged
 		}
 		switch st.Res.St {
 		case "free":
 			stats.Open++
-			return nil, OpenEnd
+			return w, nil, OpenEnd
 		case "err":
 			if r.err == nil {
 				stats.Diverged++
-				return w.div(i, "accepted-invalid", "the call must be rejected with an error but returned none"), Diverged
+				return w, w.div(i, "accepted-invalid", "the call must be rejected with an error but returned none"), Diverged
 			}
 			// state must be unchanged: checked below against the post state (identical to the pre state)
 		case "ok":
@@ -223,40 +243,48 @@ func Run(c *Case, cfg Config, stats *Stats) (*Divergence, Outcome) {
 				if st.Res.Ref || r.mayRefuse {
 					stats.Refused++
 					stats.RefusedOps[st.Op.K]++
-					return nil, Refused
+					return w, nil, Refused
 				}
 				stats.Diverged++
-				return w.div(i, "unexpected-error", r.err.Error()), Diverged
+				return w, w.div(i, "unexpected-error", r.err.Error()), Diverged
 			}
 			if d := w.checkReturn(i, st, r); d != nil {
 				stats.Diverged++
-				return d, Diverged
+				return w, d, Diverged
 			}
 		}
 		if msg := w.CallerChanged(); msg != "" {
 			stats.Diverged++
-			return w.div(i, "caller-slice", msg), Diverged
+			return w, w.div(i, "caller-slice", msg), Diverged
+		}
+		if last && w.Cfg.D.Class == vals.CString {
+			// element types with pointers: a collection followed by fresh allocations of the same size class must
+			// not change what the tensors hold (storage the collector cannot see is freed and reused)
+			runtime.GC()
+			for j := range churn {
+				churn[j] = fmt.Sprintf("g%d", j+i)
+			}
 		}
 		if st.Post != nil {
 			d, open := w.compare(i, st.Post)
 			if d != nil {
 				stats.Diverged++
-				return d, Diverged
+				return w, d, Diverged
 			}
 			if open {
 				stats.Open++
-				return nil, OpenEnd
+				return w, nil, OpenEnd
 			}
 			if last && c.IExp != nil {
 				if d := w.compareInterp(i); d != nil {
 					stats.Diverged++
-					return d, Diverged
+					return w, d, Diverged
 				}
 			}
 		}
 		_ = last
 	}
-	return nil, Passed
+	return w, nil, Passed
 }
 
 // checkReturn binds the returned tensor / value to the model's result.
@@ -642,14 +670,17 @@ func (w *World) noteOrderTags(st *Step) {
 	}
 	p := w.finalPost()
 	nF, nC := 0, 0
+	ords := ""
 	for _, h := range hs {
 		if h <= 0 || h > len(p.Live) {
 			continue
 		}
 		if p.Live[h-1].Ord == "F" {
 			nF++
+			ords += "F"
 		} else {
 			nC++
+			ords += "C"
 		}
 	}
 	add := func(t string) {
@@ -665,6 +696,24 @@ func (w *World) noteOrderTags(st *Step) {
 	}
 	if nF > 0 && nC > 0 {
 		add("mixed-order")
+	}
+	// the exact data-order configuration of an elementwise call: mo:<family>/<form>/<mode>/<orders of a[,b][,dest]>
+	if nF > 0 {
+		switch st.Op.K {
+		case "Arith", "Cmp":
+			x := a()
+			fam := st.Op.K
+			f := w.curF
+			if w.Cfg.Sub != "" {
+				f = w.Cfg.Sub
+			}
+			if st.Op.K == "Arith" && (f == "min" || f == "max") {
+				fam = "MinMax"
+			}
+			add("mo:" + fam + "/" + decodeStr(x[1]) + "/" + decodeStr(x[3]) + "/" + ords)
+		case "Unary":
+			add("mo:Unary/T/" + decodeStr(a()[1]) + "/" + ords)
+		}
 	}
 }
 
